@@ -17,6 +17,26 @@ static inline const E *L0_initializer_list_E__end(const struct initializer_list_
 static inline _Bool L0_GhostCmp__call(const struct GhostCmp *c, const E *a, const E *b) { return l0_cmp(c->token, a, b); }
 static inline E *L0_lower_bound(const E *f, const E *l, const E *v, struct GhostCmp c) { return (E *)l0_bound(f, l, v, c.token, 0); }
 static inline E *L0_upper_bound(const E *f, const E *l, const E *v, struct GhostCmp c) { return (E *)l0_bound(f, l, v, c.token, 1); }
+static inline E *L0_lower_bound__pE_pE_rE(const E *f, const E *l, const E *v) { return (E *)l0_bound_no_cmp(f, l, v); }
+static inline E *L0_upper_bound__pE_pE_rE(const E *f, const E *l, const E *v) { return (E *)l0_bound_no_cmp(f, l, v); }
+#endif
+#ifdef HAVE_optional_E
+/* std::optional<E> of the node handles: engaged flag + one element slot */
+static inline void L0_optional_E__ctor(struct optional_E *o) { o->_engaged = 0; }
+static inline void L0_optional_E__ctor_from_rrE(struct optional_E *o, E *v) { o->_engaged = 1; L0_E_move_construct(&o->_val, v); }
+static inline void L0_optional_E__ctor_move(struct optional_E *o, struct optional_E *src) { o->_engaged = src->_engaged; if (src->_engaged) L0_E_move_construct(&o->_val, &src->_val); }
+static inline void L0_optional_E__dtor(struct optional_E *o) { if (o->_engaged) L0_E_destroy(&o->_val); o->_engaged = 0; }
+static inline _Bool L0_optional_E__has_value(const struct optional_E *o) { return o->_engaged; }
+static inline E *L0_optional_E__value(struct optional_E *o) { L0_assert(o->_engaged, "C03 C04: value() of an engaged node only"); return &o->_val; }
+static inline E *L0_optional_E__op_deref(struct optional_E *o) { L0_assert(o->_engaged, "C03 C04: dereference of an engaged node only"); return &o->_val; }
+static inline struct optional_E *L0_optional_E__op_assign__rE(struct optional_E *o, E *v) {
+  if (o->_engaged) L0_E_move_assign(&o->_val, v); else { o->_engaged = 1; L0_E_move_construct(&o->_val, v); }
+  return o;
+}
+static inline struct optional_E *L0_optional_E__op_assign__rrE(struct optional_E *o, E *v) { return L0_optional_E__op_assign__rE(o, v); }
+#ifdef HAVE_std_nullopt_t
+static inline struct optional_E *L0_optional_E__op_assign__std_nullopt_t(struct optional_E *o, struct std_nullopt_t n) { (void)n; L0_optional_E__dtor(o); return o; }
+#endif
 #endif
 #include "l0_aset.h"
 #endif
